@@ -97,3 +97,68 @@ Theorem cond_matches_window_interleaved_without_lock_refuted :
   condn s = CTrue /\ wstatus (window s) = Unhealthy /\ window s = [true; false; false; true].
 Proof. exact interleaved_reconciles_break_tracking. Qed.
 Print Assumptions cond_matches_window_interleaved_without_lock_refuted.
+
+(* ---- attempt level: WHEN the lifecycle controller records an outcome (see C20/Attempts.v) ---- *)
+From Coq Require Import ZArith.
+From KV Require Import C20.Attempts C20.AttemptsProofs.
+
+(* every reconcile of the lifecycle controller acts on the NodePool only through the record paths of C20.Model, so
+   all theorems above apply to the system state reached by any attempt-level history, faults included *)
+Theorem attempts_project : forall (v : variant) (ops : list aop), a_sys (arun v ops) = run (a_trace (arun v ops)).
+Proof. exact attempts_project_l. Qed.
+Print Assumptions attempts_project.
+
+(* The window tracks the launch attempts: driving the property's (window, condition) machine with nothing but the
+   conclusions visible on the API objects (a claim turning Registered = a success, a claim deleted by liveness = a
+   failure, in the order they appear) reproduces the window and the condition of the real system, for every history of
+   launches, node joins, reconciles, clock advances, pool/class changes, restarts and re-hydrations without API faults. *)
+Theorem window_tracks_attempts : forall ops : list aop, fault_free ops = true ->
+  spec_follow fixed ainit ([], CUnknown) ops = abs (a_sys (arun fixed ops)).
+Proof. exact window_tracks_attempts_l. Qed.
+Print Assumptions window_tracks_attempts.
+
+(* ... because every attempt is recorded exactly once, with its own outcome, when it concludes *)
+Theorem attempts_recorded_once : forall ops : list aop, fault_free ops = true ->
+  Forall (fun c => c_rec c = expected_rec c) (a_claims (arun fixed ops)).
+Proof. exact attempts_recorded_once_eq. Qed.
+Print Assumptions attempts_recorded_once.
+
+(* under any API faults a Registered claim has had its success recorded (what 40852abfb repaired) *)
+Theorem registered_implies_recorded : forall ops : list aop,
+  Forall (fun c => c_reg c = true -> In true (c_rec c)) (a_claims (arun fixed ops)).
+Proof. exact registered_implies_recorded_l. Qed.
+Print Assumptions registered_implies_recorded.
+
+(* fixed in /repo by 40852abfb: one rejected NodePool status patch lost the success for good *)
+Theorem registered_implies_recorded_before_40852abfb_refuted :
+  let ops := [ANew true; AJoin 0; ARec 0 FPoolConflict; ARec 0 FNone] in
+  fault_free [ANew true; AJoin 0; ARec 0 FNone] = true /\
+  recs before_40852abfb ops = [(true, false, [])] /\ window (a_sys (arun before_40852abfb ops)) = [] /\
+  recs fixed ops = [(true, false, [true])] /\ window (a_sys (arun fixed ops)) = [true].
+Proof. exact success_lost_before_40852abfb. Qed.
+Print Assumptions registered_implies_recorded_before_40852abfb_refuted.
+
+(* fixed in /repo by 3cbc43e89: a fault-free history in which one failed launch is recorded twice *)
+Theorem attempts_recorded_once_before_3cbc43e89_refuted :
+  let ops := [ANew false; ATick 960%Z; ARec 0 FNone] in
+  fault_free ops = true /\
+  recs before_3cbc43e89 ops = [(false, true, [false; false])] /\ condn (a_sys (arun before_3cbc43e89 ops)) = CFalse /\
+  recs fixed ops = [(false, true, [false])] /\ condn (a_sys (arun fixed ops)) = CUnknown.
+Proof. exact double_failure_before_3cbc43e89. Qed.
+Print Assumptions attempts_recorded_once_before_3cbc43e89_refuted.
+
+(* known findings failure-recorded-again-after-delete-error / success-recorded-again-after-claim-status-patch-error:
+   exactly-once does not survive a failed Delete or a rejected NodeClaim status patch *)
+Theorem attempts_recorded_once_under_faults_refuted :
+  recs fixed [ANew false; ATick 300%Z; ARec 0 FDeleteErr; ARec 0 FNone] = [(false, true, [false; false])] /\
+  recs fixed [ANew true; AJoin 0; ARec 0 FStatusLost; ARec 0 FNone] = [(true, false, [true; true])].
+Proof. exact recorded_once_under_faults_fails. Qed.
+Print Assumptions attempts_recorded_once_under_faults_refuted.
+
+(* Non-vacuity: a fault-free history with a success, a timed-out launch and a restart; the window holds both *)
+Example attempts_example :
+  let ops := [ANew true; ANew false; AJoin 0; ARec 0 FNone; ATick 300%Z; ARec 1 FNone; AEnv ECrash; AEnv EHealth;
+              ANew true; AJoin 2; ARec 2 FNone] in
+  fault_free ops = true /\ recs fixed ops = [(true, false, [true]); (false, true, [false]); (true, false, [true])] /\
+  abs (a_sys (arun fixed ops)) = ([true; true], CTrue).
+Proof. vm_compute. repeat split; reflexivity. Qed.
